@@ -48,6 +48,10 @@ func grad2(s model2d.SDF, c model2d.Coord, h float64) model2d.Coord {
 	return model2d.NewCoordArray(g)
 }
 
+// coneTol is the relative accuracy (in units of the largest coordinate) of Cone.SDF/PointSDF that follows
+// from safeNormal's documented 1e-5 fallback: 2e-5 * 2*sqrt(3), rounded up.
+const coneTol = 7e-5
+
 // props3 evaluates the property's predicates on the real outputs for one query.
 func props3(c *hlib.Ctx, name string, s sdf3, desc string, q model3d.Coord3D) {
 	val := s.SDF(q)
@@ -65,10 +69,12 @@ func props3(c *hlib.Ctx, name string, s sdf3, desc string, q model3d.Coord3D) {
 	}
 	c.Stat("props3/"+name, 1)
 	// Cone.genericSDF finds the generator through safeNormal, which replaces a radial direction that is
-	// less than 1e-5 of the distance from the base by an arbitrary one: absolute accuracy 1e-5 * size.
+	// less than 1e-5 of the distance from the base by an arbitrary one: the generator used may be the one
+	// on the far side of the axis, the radial offset rho of the query is < 1e-5*|q-Base|, so distance and
+	// point are off by up to 2*rho < 2e-5*|q-Base| <= 2e-5*2*sqrt(3)*sc (q and Base have coordinates <= sc).
 	tol := 1e-7 * sc
 	if name == "cone" {
-		tol = 3e-5 * sc
+		tol = coneTol * sc
 	}
 	if d := q.Dist(p); math.Abs(d-math.Abs(val)) > tol {
 		fail("nearest-point-not-at-reported-distance", fmt.Sprintf("|q-p|=%v |sdf|=%v p=%v", d, math.Abs(val), p))
@@ -132,7 +138,12 @@ func lipschitz3(c *hlib.Ctx, name string, s sdf3, desc string, qs []model3d.Coor
 			continue
 		}
 		sc := maxAbs3(a, b, s.Min(), s.Max())
-		if d := a.Dist(b); math.Abs(va-vb) > d*(1+1e-9)+1e-9*sc {
+		slack := 1e-9 * sc
+		if name == "cone" {
+			// both values carry the safeNormal inaccuracy of Cone.genericSDF (see props3)
+			slack = 2 * coneTol * sc
+		}
+		if d := a.Dist(b); math.Abs(va-vb) > d*(1+1e-9)+slack {
 			c.PropFail("prop:c06/"+name+"/not-1-lipschitz",
 				fmt.Sprintf("%s: sdf(%v)=%v sdf(%v)=%v |a-b|=%v", desc, a, va, b, vb, d))
 		}
